@@ -4,7 +4,6 @@ import (
 	"bytes"
 
 	"github.com/openacid/low/bitmap"
-	"github.com/openacid/low/bitstr"
 )
 
 // NextRaw returns next key-value pair in []byte.
@@ -239,7 +238,7 @@ func (st *SlimTrie) getGEPath(key string) ([]int32, bool) {
 		}
 
 		if qr.hasInnerPrefix {
-			r := bitstr.StrCmpUpto(key[i>>3:], qr.innerPrefix)
+			r := strCmpUpto(key[i>>3:], qr.innerPrefix)
 			if r == 0 {
 				i = i&(^7) + qr.innerPrefixLen
 			} else if r < 0 {
